@@ -11,6 +11,8 @@ CONSTANTS
   WithProxyDel = TRUE
   CfiLayouts = {"none"}
   Isa = "x64"
+  WithScopes = FALSE
+  InsFns = {"none"}
   Emit = FALSE
 INVARIANT Inv_Completes
 INVARIANT Inv_Bytes
